@@ -54,17 +54,17 @@ func nilLambda(sp *NilSpec, rec *recorder) *compose.Lambda {
 	var fc compose.Collect[any, any, any]
 	var ft compose.Transform[any, any, any]
 	if sp.Nat[0] {
-		fi = func(ctx context.Context, in any, _ ...any) (any, error) { rec.add(1, "I"); return nil, nil }
+		fi = func(ctx context.Context, in any, _ ...any) (any, error) { rec.add(ctx, 1, "I"); return nil, nil }
 	}
 	if sp.Nat[1] {
 		fs = func(ctx context.Context, in any, _ ...any) (*schema.StreamReader[any], error) {
-			rec.add(1, "S")
+			rec.add(ctx, 1, "S")
 			return nilStream(sp.NChunk, sp.Pipe), nil
 		}
 	}
 	if sp.Nat[2] {
 		fc = func(ctx context.Context, in *schema.StreamReader[any], _ ...any) (any, error) {
-			rec.add(1, "C")
+			rec.add(ctx, 1, "C")
 			if _, err := readAll(in); err != nil {
 				return nil, err
 			}
@@ -73,7 +73,7 @@ func nilLambda(sp *NilSpec, rec *recorder) *compose.Lambda {
 	}
 	if sp.Nat[3] {
 		ft = func(ctx context.Context, in *schema.StreamReader[any], _ ...any) (*schema.StreamReader[any], error) {
-			rec.add(1, "T")
+			rec.add(ctx, 1, "T")
 			if _, err := readAll(in); err != nil {
 				return nil, err
 			}
